@@ -61,6 +61,9 @@ def oracle(tr):
 
 
 PROFILES = [
+    # headers of several hundred kilobytes: the bus needs several sendmsg calls for one message, the descriptors go with the first
+    ("descriptor-passing-big-headers", {"weights": {"fdsend": 40, "signal": 3, "call": 3, "addmatch": 4, "request": 4, "close": 2, "connect": 6, "hello": 7,
+                                                   "garbage": 0, "forged": 0, "badtype": 0}, "max_conns": 4, "fdpass": True, "bigheader": 0.5}, None, None),
     ("descriptor-passing", {"weights": {"fdsend": 22, "signal": 6, "call": 6, "addmatch": 10, "request": 8, "close": 3, "connect": 5, "hello": 6,
                                         "garbage": 0, "forged": 1, "badtype": 0}, "max_conns": 5, "fdpass": True}, None, None),
     ("descriptor-passing-limit-4", {"weights": {"fdsend": 24, "signal": 5, "call": 5, "addmatch": 10, "request": 8, "close": 4, "connect": 6, "hello": 6,
@@ -91,6 +94,26 @@ def timer_scripts():
         head + [("fdsend", 2, sig(2, 2), [1, 2], 0), ("fdsleep",), ("fdsend", 2, sig(3, 1), [3], 0)],          # nothing pending: stays
         head + [("fdsend", 2, sig(2, 1), [1, 2, 3], 0), ("fdsend", 1, sig(3, 0), [4], 0), ("fdsend", 2, sig(3, 2), [], 0), ("fdsleep",)],
     ]
+
+
+def bigheader_scripts():
+    """a message whose header alone is larger than the socket buffer, carrying descriptors: the bus writes it to the recipient in
+    several pieces; the descriptors belong to the first piece only"""
+    from ..bus import method_call, signal_msg, BUS, BUS_PATH
+    hello = lambda: method_call(1, BUS, BUS_PATH, BUS, "Hello").marshal()
+    head = [("connect", 0, 0, False), ("send", 0, hello()), ("connect", 1, 0, True), ("send", 1, hello()), ("connect", 2, 0, True), ("send", 2, hello())]
+    out = []
+    tok = 1
+    for n_el, k in ((30000, 1), (60000, 2), (120000, 3), (250000, 2)):
+        path = "/" + "/".join("q%05d" % (j % 100000) for j in range(n_el))
+        m = signal_msg(2, path, "a.b", "M", "s", [b"big"], dest=":1.1")
+        m.fields.append((9, ('b', 'u'), k))
+        m2 = method_call(3, ":1.1", path, "a.b", "M", "s", [b"big"], flags=1)
+        m2.fields.append((9, ('b', 'u'), k))
+        out.append(head + [("fdsend", 2, m.marshal(), list(range(tok, tok + k)), 0), ("fdsend", 2, m2.marshal(), list(range(tok + k, tok + 2 * k)), 0),
+                           ("fdsend", 2, signal_msg(4, "/a", "a.b", "M", "s", [b"small"], dest=":1.1").marshal(), [], 0)])
+        tok += 2 * k
+    return out
 
 
 def baseline_case(seed):
@@ -130,10 +153,13 @@ def run(ctx):
     nops = 70 if ctx.quick() else 150
     for i, (label, kw, limits, rules) in enumerate(PROFILES):
         pol = busdiff.Policy(rules) if rules else busdiff.SESSION
-        good = buscheck.run_histories(ctx, nh, nops, oracle, gen_kw=kw, limits=limits, policy=pol, seed_salt=150 + i, label=label)
+        big = "bigheader" in kw
+        good = buscheck.run_histories(ctx, nh if not big else max(4, nh // 2), nops if not big else 40, oracle, gen_kw=kw, limits=limits, policy=pol,
+                                      seed_salt=150 + i + (40 if big else 0), label=label)
         withtok = sum(1 for r in good for per, _ in r["isteps"] for ls in per.values() for l in ls if " fdtok=" in l)
         ctx.coverage["histories"][label]["deliveries_carrying_descriptors"] = withtok
     buscheck.run_histories(ctx, 0, 0, oracle, limits={"pending_fd_timeout": 500}, seed_salt=170, label="pending-descriptor-timeout", scripts=timer_scripts())
+    buscheck.run_histories(ctx, 0, 0, oracle, seed_salt=171, label="big-header-scenarios", scripts=bigheader_scripts())
     from concurrent.futures import ProcessPoolExecutor
     n = 6 if ctx.quick() else 40
     with ProcessPoolExecutor(6) as ex:
